@@ -100,6 +100,15 @@ HARNESS_MODS = {
 }
 
 
+def write_atomic(path, text):
+    """Several checks may run at the same time on one build directory: a shared generated file is replaced in one
+    step, never seen half-written."""
+    tmp = "%s.%d.tmp" % (path, os.getpid())
+    with open(tmp, "w") as f:
+        f.write(text)
+    os.replace(tmp, path)
+
+
 def build_harness(name, pkg=".", out=None, tags="verif", extra=()):
     """go build one harness program against the current tree (REPO, default /repo).
     The module file is copied to the build directory (-modfile) with its `replace => /repo`
